@@ -369,6 +369,14 @@ class Interp:
             self.assign(s.target.elts[0], Lin.atom(("iter", loop.lid)), sub, s)
             self.assign(s.target.elts[1], typed_value(f"{src.path}[*]", src.typ[1]), sub, s)
         elif isinstance(it, TRef) and it.typ[0] == "list":
+            # total = c; for x in xs: total += len(x)   ->   total = c + len(b"".join(xs))   (a pure size summation loop)
+            if isinstance(s.target, ast.Name) and len(s.body) == 1 and isinstance(s.body[0], ast.AugAssign) and isinstance(s.body[0].op, ast.Add) and isinstance(s.body[0].target, ast.Name) and isinstance(st.env.get(s.body[0].target.id), Lin) and unparse(s.body[0].value) == f"len({s.target.id})" and it.typ[1][0] == "bytes":
+                st.env[s.body[0].target.id] = st.env[s.body[0].target.id] + Lin.atom(("len", f"join({it.path})"))
+                return [(st, Outcome("fall"))]
+            # buf = ..; for x in xs: buf += x   ->   buf += b"".join(xs)   (a pure concatenation loop)
+            if isinstance(s.target, ast.Name) and len(s.body) == 1 and isinstance(s.body[0], ast.AugAssign) and isinstance(s.body[0].op, ast.Add) and isinstance(s.body[0].target, ast.Name) and isinstance(st.env.get(s.body[0].target.id), SBytes) and unparse(s.body[0].value) == s.target.id and it.typ[1][0] == "bytes":
+                st.env[s.body[0].target.id] = st.env[s.body[0].target.id] + self.ev.as_bytes(it, s.iter)
+                return [(st, Outcome("fall"))]
             loop.count, loop.over = Lin.atom(("len", it.path)), it.path
             self.assign(s.target, typed_value(f"{it.path}[*]", it.typ[1]), sub, s)
         elif isinstance(it, (STuple, list)):
